@@ -50,6 +50,8 @@ let op_of_string s = match split ':' s with
   | ["set"; i; ix; v] ->
     let body = String.sub v 1 (String.length v - 1) in
     OSetIdx (nat i, index_of_string ix, (if v.[0] = 'q' then VSeq (nat body) else VScalar (z_of_string body)))
+  | ["op"; i; _; "1"; "2"] -> OOpRefused (nat i, None)
+  | ["opq"; i; _; j; "1"; "2"] -> OOpRefused (nat i, Some (nat j))
   | ["op"; i; f; ip; dc] -> OOp (nat i, fn_of_string f, bool_of_string ip, bool_of_string dc)
   | ["cat"; js] ->
     OConcat (List.map (fun p -> match split ',' p with [j; b] -> (nat j, z_of_string b) | _ -> failwith "bad cat")
@@ -63,7 +65,7 @@ let op_of_string s = match split ':' s with
   | ["gett"; i; ix; _; _] -> OGetCols (nat i, index_of_string ix)
   | ["opq"; i; g; j; ip; dc] -> OOpSeq (nat i, fn2_of_string g, nat j, bool_of_string ip, bool_of_string dc)
   | _ -> failwith ("bad op " ^ s)
-let string_of_err = function EIndex -> "Index" | EValue -> "Value" | EStopIteration -> "StopIteration" | EBadSeq -> "BadSeq"
+let string_of_err = function EIndex -> "Index" | EValue -> "Value" | EStopIteration -> "StopIteration" | EBadSeq -> "BadSeq" | EType -> "Type"
 let string_of_result = function ROk -> "ok" | RElem e -> "el=" ^ string_of_elem e | RErr e -> "err:" ^ string_of_err e
 let string_of_obs obs =
   let tbl = ref [] in
